@@ -544,6 +544,37 @@ func (x *Exec) doGo(st *State, fr *Frame, in *ssa.Go) {
 		name = "invoke " + c.Method.Name()
 	}
 	st.spawned = append(st.spawned, name)
+	// `atcall` clauses of the enclosing function also apply to calls started with `go`
+	if x.fc != nil && x.fc.AtCalls != nil {
+		cn := calleeName(c)
+		var argv []Val
+		for _, a := range c.Args {
+			argv = append(argv, x.val(st, fr, a))
+		}
+		for i, ac := range x.fc.AtCalls[cn] {
+			vars := map[string]Val{}
+			for k, v := range x.entryEnv {
+				vars[k] = v
+			}
+			for j, a := range argv {
+				vars[fmt.Sprintf("$%d", j)] = a
+			}
+			if c.IsInvoke() {
+				vars["$recv"] = x.val(st, fr, c.Value)
+			}
+			env := &specEnv{w: x.w, pkg: x.fc.Pkg, vars: vars, st: st, heap: st.heap, old: x.initHeap}
+			g, err := env.evalBool(ac.E)
+			if err != nil {
+				x.reject("contract of %s: atcall %s %q: %v", x.fc.Key, cn, ac.Src, err)
+			}
+			label := ac.Label
+			if label == "" {
+				label = fmt.Sprintf("atcall%d", i)
+			}
+			x.atcallUsed[cn] = true
+			x.oblige(st, "atcall", x.site(cn, in.Pos()), label, ac.Tags, g, in.Pos(), ac.Src)
+		}
+	}
 	// the body of a goroutine is verified as a function of its own, against its own contract: a `go` statement
 	// whose callee carries no contract starts code nobody verifies, and its effects are missing from this path
 	contracted := false
